@@ -205,6 +205,8 @@ def plan(prop, tier, seed, programs=None):
         prog = PROGRAMS[name]
         if prop == 'C35' and 'barrier' not in prog['tags'] and name not in ('mul_cmp', 'mod_race'):
             continue
+        if prop != 'C08' and name == 'restart_threshold':
+            continue        # two connections per link in one execution: the per-link frame accounting of C09 assumes one
         for m in prog['ms']:
             if m > 3 and tier == 'quick' and prop != 'C08':
                 continue
